@@ -17,7 +17,7 @@
       credentials_verify ... a ts login   all of the above except the age of the nonce, see c19_digest_sound
       digest_challenge H c now stale  Digest realm=.., nonce="now:H(now:realm:key)", algorithm="MD5", qop="auth"[, stale="true"][, charset=..] *)
 From Coq Require Import ZArith List Bool.
-From CV Require Import Lib.Sx Lib.ListZ Model.M_auth Proof.P_auth Proof.P_auth_thm.
+From CV Require Import Lib.Sx Lib.ListZ Model.M_auth Proof.P_auth Proof.P_auth_thm Proof.P_auth_fields.
 Import ListNotations.
 Open Scope Z_scope.
 
@@ -136,3 +136,26 @@ Example c19_nonvacuous_basic :
   /\ (forall login, R401 (basic_challenge ex_cfg) <> Reached login).
 Proof. exact ex_basic. Qed.
 Print Assumptions c19_nonvacuous_basic.
+
+(** What the Authorization header can contribute is nine named parameters and nothing
+    else: two parsers of the parameter list that fail alike and agree on those nine
+    keys give the same authorization object - carrying the request's own method -,
+    the same error and the same trace ... *)
+Theorem c19_digest_reads_nine_fields : forall dec_accept pp pp',
+  (forall s, pr_agree (pp s) (pp' s)) ->
+  forall header http_method,
+    parse_header dec_accept pp header http_method = parse_header dec_accept pp' header http_method.
+Proof. exact parse_header_fields. Qed.
+Print Assumptions c19_digest_reads_nine_fields.
+
+(** ... so a parameter under any other name (method=, http_method=, ha1=, key= ...),
+    anywhere in the list and whatever it holds, changes nothing. *)
+Theorem c19_extra_field_ignored : forall name value kv,
+  ~ In name digest_keys -> forall pre, agree (pre ++ (name, value) :: kv) (pre ++ kv).
+Proof. exact agree_extra. Qed.
+Print Assumptions c19_extra_field_ignored.
+
+(** Non-vacuity: `method`, which the code stores as self.method, is such a name. *)
+Example c19_method_is_extra : ~ In k_method digest_keys.
+Proof. exact method_is_extra. Qed.
+Print Assumptions c19_method_is_extra.
